@@ -16,11 +16,14 @@ import (
 	"fmt"
 	"math/big"
 	"os"
+	"os/exec"
 	"path/filepath"
 	"runtime"
 	"sort"
 	"strings"
 	"sync"
+	"sync/atomic"
+	"time"
 
 	"github.com/gobwas/glob"
 
@@ -591,7 +594,7 @@ func patternSet(rng *hutil.Rng, tier string, corpus []string) ([]string, map[str
 		}
 	} else {
 		hutil.Shuffle(rng, four)
-		for _, p := range four[:500] {
+		for _, p := range four[:350] {
 			add(p, "tokens4")
 		}
 	}
@@ -656,18 +659,36 @@ func smallCases(out *hutil.Out, o *opa, rng *hutil.Rng, tier string, all []strin
 		}
 		return fs
 	}
-	emit := func(c SmallCase) { out.Emit(c) }
+	// inputs are drawn sequentially from the one PRNG, the evaluation runs in parallel
+	var jobs []func() SmallCase
+	emit := func(f func() SmallCase) { jobs = append(jobs, f) }
 	// fixed cases first: the empty pattern, precedence of the CLI list, stdin, duplicates
 	fixedFiles := []string{"a/b.rego", "b.rego", "a/a/a.rego", "b/a.rego"}
-	emit(smallCase(o, "fixed:empty-pattern-config", "", fixedFiles, nil, []string{""}, true, nil))
-	emit(smallCase(o, "fixed:empty-pattern-rule", "", fixedFiles, nil, nil, false, []string{""}))
-	emit(smallCase(o, "fixed:empty-pattern-cli", "", fixedFiles, []string{""}, []string{"a"}, true, nil))
-	emit(smallCase(o, "fixed:empty-then-match", "", fixedFiles, nil, []string{"", "b.rego"}, true, nil))
-	emit(smallCase(o, "fixed:cli-over-config", "", fixedFiles, []string{"b.rego"}, []string{"a"}, true, nil))
-	emit(smallCase(o, "fixed:config-only", "", fixedFiles, nil, []string{"a"}, true, nil))
-	emit(smallCase(o, "fixed:no-ignore-key", "", fixedFiles, nil, nil, false, []string{"b.rego"}))
-	emit(smallCase(o, "fixed:stdin", "", []string{"-"}, nil, []string{"*"}, true, nil))
-	emit(smallCase(o, "fixed:dup-files", "/w", []string{"/w/a/b.rego", "/w/b.rego", "/w/a/b.rego"}, nil, []string{"/a"}, true, nil))
+	emit(func() SmallCase {
+		return smallCase(o, "fixed:empty-pattern-config", "", fixedFiles, nil, []string{""}, true, nil)
+	})
+	emit(func() SmallCase {
+		return smallCase(o, "fixed:empty-pattern-rule", "", fixedFiles, nil, nil, false, []string{""})
+	})
+	emit(func() SmallCase {
+		return smallCase(o, "fixed:empty-pattern-cli", "", fixedFiles, []string{""}, []string{"a"}, true, nil)
+	})
+	emit(func() SmallCase {
+		return smallCase(o, "fixed:empty-then-match", "", fixedFiles, nil, []string{"", "b.rego"}, true, nil)
+	})
+	emit(func() SmallCase {
+		return smallCase(o, "fixed:cli-over-config", "", fixedFiles, []string{"b.rego"}, []string{"a"}, true, nil)
+	})
+	emit(func() SmallCase {
+		return smallCase(o, "fixed:config-only", "", fixedFiles, nil, []string{"a"}, true, nil)
+	})
+	emit(func() SmallCase {
+		return smallCase(o, "fixed:no-ignore-key", "", fixedFiles, nil, nil, false, []string{"b.rego"})
+	})
+	emit(func() SmallCase { return smallCase(o, "fixed:stdin", "", []string{"-"}, nil, []string{"*"}, true, nil) })
+	emit(func() SmallCase {
+		return smallCase(o, "fixed:dup-files", "/w", []string{"/w/a/b.rego", "/w/b.rego", "/w/a/b.rego"}, nil, []string{"/a"}, true, nil)
+	})
 	n := 250
 	if tier == "thorough" {
 		n = 3000
@@ -685,7 +706,24 @@ func smallCases(out *hutil.Out, o *opa, rng *hutil.Rng, tier string, all []strin
 		if rng.Below(2) == 0 {
 			rule = pickList(2, true)
 		}
-		emit(smallCase(o, "random", pp.prefix, files(pp.lead), cli, cfg, cfgSet, rule))
+		fs := files(pp.lead)
+		emit(func() SmallCase { return smallCase(o, "random", pp.prefix, fs, cli, cfg, cfgSet, rule) })
+	}
+	res := make([]SmallCase, len(jobs))
+	var wg sync.WaitGroup
+	sem := make(chan struct{}, runtime.NumCPU())
+	for i, j := range jobs {
+		wg.Add(1)
+		sem <- struct{}{}
+		go func(i int, j func() SmallCase) {
+			defer wg.Done()
+			defer func() { <-sem }()
+			res[i] = j()
+		}(i, j)
+	}
+	wg.Wait()
+	for _, c := range res {
+		out.Emit(c)
 	}
 }
 
@@ -726,6 +764,8 @@ type LintCase struct {
 	Src     string              `json:"src"`
 	Mode    string              `json:"mode"`   // "paths-abs" | "paths-rel" | "modules-uri" | "modules-abs"
 	Prefix  string              `json:"prefix"` // canonical ("/R" for the root)
+	Cwd     string              `json:"cwd"`    // mode "cli": working directory relative to the root ("" = root, ".." = its parent)
+	Arg     string              `json:"arg"`    // mode "cli": the path argument
 	Rel     []string            `json:"rel"`    // root-relative names of the files handed to the linter
 	Files   []string            `json:"files"`  // the names as the linter saw them (canonical)
 	Cli     []string            `json:"cli"`
@@ -837,6 +877,96 @@ func runLint(env lintEnv, c *LintCase) {
 		for kind, ct := range ruleTitle {
 			if v.Category == ct[0] && v.Title == ct[1] {
 				c.Hit[kind] = append(c.Hit[kind], canon(env.root, v.Location.File))
+			}
+		}
+	}
+	for k := range c.Hit {
+		sort.Strings(c.Hit[k])
+	}
+}
+
+// runCli: the same observation through the built regal binary ($VERIF_C05_REGAL): its own project
+// directory (named "R") with .regal/config.yaml, a working directory and one path argument.
+var cliCounter atomic.Int64
+
+func runCli(o *opa, env lintEnv, c *LintCase) {
+	bin := os.Getenv("VERIF_C05_REGAL")
+	dir := filepath.Join(filepath.Dir(env.root), "cli", fmt.Sprintf("c%d", cliCounter.Add(1)))
+	root := filepath.Join(dir, "R")
+	var err error
+	for _, r := range env.rel {
+		p := filepath.Join(root, r)
+		must(os.MkdirAll(filepath.Dir(p), 0o755))
+		must(os.WriteFile(p, []byte(builtinPolicy), 0o644))
+	}
+	cenv := lintEnv{root: root, rulesDir: env.rulesDir, rel: env.rel}
+	lintTable(o, cenv, c)
+	realPat := func(p string) string {
+		if strings.HasPrefix(p, "/R/") || strings.HasPrefix(p, "R/") {
+			return strings.Replace(p, "R/", root[1:]+"/", 1)
+		}
+		return p
+	}
+	conf := map[string]any{}
+	if c.CfgSet {
+		l := []string{}
+		for _, p := range c.Cfg {
+			l = append(l, realPat(p))
+		}
+		conf["ignore"] = map[string]any{"files": l}
+	}
+	rulesCfg := map[string]any{}
+	for kind, ign := range c.RuleIgn {
+		ct := ruleTitle[kind]
+		cat, _ := rulesCfg[ct[0]].(map[string]any)
+		if cat == nil {
+			cat = map[string]any{}
+			rulesCfg[ct[0]] = cat
+		}
+		l := []string{}
+		for _, p := range ign {
+			l = append(l, realPat(p))
+		}
+		cat[ct[1]] = map[string]any{"level": "error", "ignore": map[string]any{"files": l}}
+	}
+	if len(rulesCfg) > 0 {
+		conf["rules"] = rulesCfg
+	}
+	must(os.MkdirAll(filepath.Join(root, ".regal"), 0o755))
+	raw, _ := json.Marshal(conf) // JSON is YAML
+	must(os.WriteFile(filepath.Join(root, ".regal", "config.yaml"), raw, 0o644))
+	args := []string{"lint", "--format", "json", "--rules", env.rulesDir}
+	for _, p := range c.Cli {
+		args = append(args, "--ignore-files", realPat(p))
+	}
+	args = append(args, strings.Replace(c.Arg, "/R", root, 1))
+	cmd := exec.Command(bin, args...)
+	cmd.Dir = filepath.Join(root, c.Cwd)
+	var stdout, stderr strings.Builder
+	cmd.Stdout, cmd.Stderr = &stdout, &stderr
+	err = cmd.Run()
+	var rep struct {
+		Violations []struct {
+			Category string `json:"category"`
+			Title    string `json:"title"`
+			Location struct {
+				File string `json:"file"`
+			} `json:"location"`
+		} `json:"violations"`
+		Summary struct {
+			FilesScanned int `json:"files_scanned"`
+		} `json:"summary"`
+	}
+	if jerr := json.Unmarshal([]byte(stdout.String()), &rep); jerr != nil {
+		c.Err = canon(root, fmt.Sprintf("%v: %s %s", err, stderr.String(), stdout.String()))
+		return
+	}
+	c.FilesScanned = rep.Summary.FilesScanned
+	c.Hit = map[string][]string{"builtin": {}, "custom": {}, "agg": {}}
+	for _, v := range rep.Violations {
+		for kind, ct := range ruleTitle {
+			if v.Category == ct[0] && v.Title == ct[1] {
+				c.Hit[kind] = append(c.Hit[kind], canon(root, v.Location.File))
 			}
 		}
 	}
@@ -961,6 +1091,43 @@ func lintCases(out *hutil.Out, o *opa, rng *hutil.Rng, tier string, work string)
 	mk("fixed:single-file", "paths-abs", "/R", []string{"a/b.rego"}, nil, nil, false, nil)
 	mk("fixed:two-files-one-ignored", "paths-abs", "/R", []string{"a/b.rego", "b.rego"}, nil, []string{"/b.rego"}, true, nil)
 
+	// through the CLI binary: working directory x spelling of the path argument
+	type cliShape struct{ cwd, arg string }
+	cliShapes := []cliShape{{"", "."}, {"", "/R"}, {"a", "."}, {"a", ".."}, {"..", "R"}, {"a", "/R/a"}, {"..", "R/a"}}
+	mkCli := func(src string, sh cliShape, cli, cfg []string, cfgSet bool, ign map[string][]string) {
+		if os.Getenv("VERIF_C05_REGAL") == "" {
+			return
+		}
+		c := &LintCase{Kind: "lint", Src: src, Mode: "cli", Prefix: "/R", Cwd: sh.cwd, Arg: sh.arg, Cli: cli, Cfg: cfg, CfgSet: cfgSet, RuleIgn: ign}
+		if c.Cfg == nil {
+			c.Cfg = []string{}
+		}
+		if c.RuleIgn == nil {
+			c.RuleIgn = map[string][]string{}
+		}
+		// the directory the argument denotes, relative to the root
+		sub := ""
+		if strings.HasSuffix(sh.arg, "/a") || (sh.cwd == "a" && sh.arg == ".") {
+			sub = "a/"
+		}
+		for _, r := range all {
+			if !strings.HasPrefix(r, sub) {
+				continue
+			}
+			c.Rel = append(c.Rel, r)
+			// filepath.WalkDir joins the argument with the path below it
+			c.Files = append(c.Files, filepath.Join(sh.arg, strings.TrimPrefix(r, sub)))
+		}
+		cases = append(cases, c)
+	}
+	for _, sh := range cliShapes {
+		mkCli("fixed:cli-global-anchored", sh, nil, []string{"/b.rego", "a/b/"}, true, nil)
+		mkCli("fixed:cli-per-rule", sh, nil, nil, false, map[string][]string{"builtin": {"a/b.rego"}, "custom": {"a/b.rego"}, "agg": {"a/b.rego"}})
+	}
+	mkCli("fixed:cli-flag-over-config", cliShapes[1], []string{"b.rego"}, []string{"a/"}, true, nil)
+	mkCli("fixed:cli-flag-over-config", cliShapes[0], []string{"b.rego"}, []string{"a/"}, true, nil)
+	mkCli("fixed:cli-unanchored", cliShapes[2], nil, []string{"b.rego"}, true, nil)
+
 	levels := tokenPatterns(3)
 	var pool []string
 	for _, l := range levels {
@@ -1020,6 +1187,9 @@ func lintCases(out *hutil.Out, o *opa, rng *hutil.Rng, tier string, work string)
 			rel = all[:1+rng.Below(3)]
 		}
 		mk("random", mp[0], mp[1], rel, cli, cfg, cfgSet, ign)
+		if i%4 == 0 {
+			mkCli("random", hutil.Choice(rng, cliShapes), cli, cfg, cfgSet, ign)
+		}
 	}
 	runAll(o, env, cases)
 	for _, c := range cases {
@@ -1036,8 +1206,12 @@ func runAll(o *opa, env lintEnv, cases []*LintCase) {
 		go func(c *LintCase) {
 			defer wg.Done()
 			defer func() { <-sem }()
-			lintTable(o, env, c)
-			runLint(env, c)
+			if c.Mode == "cli" {
+				runCli(o, env, c)
+			} else {
+				lintTable(o, env, c)
+				runLint(env, c)
+			}
 		}(c)
 	}
 	wg.Wait()
@@ -1127,7 +1301,19 @@ func main() {
 		out.Emit(map[string]any{"kind": "shape", "shape": s})
 	}
 	pats, srcs := patternSet(rng, tier, corpus)
+	lap("setup")
 	bulk(out, o, pats, srcs, shs, universe)
+	lap("bulk")
 	smallCases(out, o, rng, tier, all)
+	lap("small")
 	lintCases(out, o, rng, tier, work)
+	lap("lint")
+}
+
+var t0 = time.Now()
+
+func lap(what string) {
+	if os.Getenv("VERIF_C05_TIMING") != "" {
+		fmt.Fprintf(os.Stderr, "%-8s %6.1fs\n", what, time.Since(t0).Seconds())
+	}
 }
